@@ -4,6 +4,7 @@
 import CSD.Generated.Bodies
 import CSD.Model.SourceText
 import CSD.Lemmas.PFCMeta
+import CSD.Lemmas.FM17
 
 namespace CSD.Props.C15
 open CSD CSD.PFC
@@ -49,5 +50,14 @@ obligation even if no generated input tells the behaviours apart. -/
 theorem models_match_source_text :
     Generated.body_PFC_ctor = SourceText.body_PFC_ctor ∧
     Generated.body_PFC_load = SourceText.body_PFC_load := ⟨rfl, rfl⟩
+
+
+/-! ### FMINDEX -/
+
+/-- The FM-index dictionary built by the model reports `numElements = n` and a `maxLength` above every member
+(the constructor's `len + 1` convention), so `extract`'s buffer of `maxlength + 2` bytes holds every member. -/
+theorem fmindex_metadata (S : List Str) (step : Nat) :
+    (FM.buildDict S step).elements = S.length ∧ ∀ s ∈ S, s.length < (FM.buildDict S step).maxlength :=
+  ⟨rfl, FM.maxlength_buildDict S step⟩
 
 end CSD.Props.C15
